@@ -31,6 +31,8 @@ pub enum Transport {
     UnixPair,
     Ldaps,
     StartTls,
+    /// StartTLS over a TCP stream the caller opened itself
+    StartTlsPre,
 }
 
 #[derive(Clone, Copy, Debug, PartialEq, Serialize, Deserialize)]
@@ -47,6 +49,9 @@ pub enum Ending {
     PeerGarbage { pending: usize },
     /// the peer closes right after the last warm-up reply, while nothing is pending
     PeerCloseIdle,
+    /// the peer hangs up as soon as it has accepted the connection (TCP-based transports): establishment of a TLS
+    /// or StartTLS connection must fail, not hang; a plain connection notices at its first operation at the latest
+    PeerCloseAtAccept,
 }
 
 #[derive(Clone, Debug, PartialEq, Serialize, Deserialize)]
@@ -193,8 +198,8 @@ fn serve_tcp_conn(mut s: TcpStream, transport: Transport, warm: usize, then: The
     }
     match transport {
         Transport::Tcp | Transport::TcpPre => ldap_peer(&mut s, warm, then, &log),
-        Transport::Ldaps | Transport::StartTls => {
-            if transport == Transport::StartTls {
+        Transport::Ldaps | Transport::StartTls | Transport::StartTlsPre => {
+            if matches!(transport, Transport::StartTls | Transport::StartTlsPre) {
                 // one cleartext exchange first
                 let mut buf = Vec::new();
                 let mut tmp = [0u8; 4096];
@@ -240,9 +245,9 @@ fn err_or<T>(r: Result<Result<T, ldap3::LdapError>, tokio::time::error::Elapsed>
     }
 }
 
-pub fn run(sc: &Scenario, _cfg: &RunCfg) -> RunResult {
+pub fn run(sc: &Scenario, cfg: &RunCfg) -> RunResult {
     let case: RealCase = serde_json::from_str(&sc.note).expect("realio case");
-    let obs = run_case(&case);
+    let obs = run_case(&case, cfg.tokio_seed);
     let mut hist = vec![];
     let js = serde_json::to_string(&obs).unwrap();
     hist.push(Ev { seq: 1, t_ms: 0, kind: EvKind::Note(format!("realio {js}")) });
@@ -255,6 +260,7 @@ pub fn run(sc: &Scenario, _cfg: &RunCfg) -> RunResult {
         Ending::PeerReset { .. } => "peer-reset",
         Ending::PeerGarbage { .. } => "peer-garbage",
         Ending::PeerCloseIdle => "peer-close-idle",
+        Ending::PeerCloseAtAccept => "peer-close-at-accept",
     };
     stats.bump(&format!("realio.ending.{ending}"));
     stats.bump(if case.sync_api { "realio.api.sync" } else { "realio.api.async" });
@@ -278,7 +284,7 @@ pub fn run(sc: &Scenario, _cfg: &RunCfg) -> RunResult {
     }
 }
 
-pub fn run_case(case: &RealCase) -> RealObs {
+pub fn run_case(case: &RealCase, tokio_seed: u64) -> RealObs {
     crate::exec::install_panic_hook();
     let mut obs = RealObs::default();
     let log = Arc::new(Mutex::new(PeerLog::default()));
@@ -290,16 +296,17 @@ pub fn run_case(case: &RealCase) -> RealObs {
         Ending::PeerClose { pending } => (if pending == 0 { Then::CloseNow } else { Then::CloseAfter(pending) }, false),
         Ending::PeerReset { pending } => (if pending == 0 { Then::CloseNow } else { Then::CloseAfter(pending) }, true),
         Ending::PeerGarbage { pending } => (Then::GarbageAfter(pending.max(1)), false),
-        Ending::PeerCloseIdle => (Then::CloseNow, false),
+        Ending::PeerCloseIdle | Ending::PeerCloseAtAccept => (Then::CloseNow, false),
     };
-    let warm = case.warmup;
+    let at_accept = case.ending == Ending::PeerCloseAtAccept;
+    let warm = if at_accept { 0 } else { case.warmup };
     let transport = case.transport;
     // --- peer ----------------------------------------------------------------------------------
     let mut settings = ldap3::LdapConnSettings::new();
     let url: String;
     let peer: std::thread::JoinHandle<()>;
     match transport {
-        Transport::Tcp | Transport::TcpPre | Transport::Ldaps | Transport::StartTls => {
+        Transport::Tcp | Transport::TcpPre | Transport::Ldaps | Transport::StartTls | Transport::StartTlsPre => {
             let l = match TcpListener::bind("127.0.0.1:0") {
                 Ok(l) => l,
                 Err(e) => {
@@ -309,7 +316,7 @@ pub fn run_case(case: &RealCase) -> RealObs {
             };
             let port = l.local_addr().map(|a| a.port()).unwrap_or(0);
             let lg = log.clone();
-            let pre = if transport == Transport::TcpPre {
+            let pre = if matches!(transport, Transport::TcpPre | Transport::StartTlsPre) {
                 match TcpStream::connect(("127.0.0.1", port)) {
                     Ok(s) => Some(s),
                     Err(e) => {
@@ -322,6 +329,10 @@ pub fn run_case(case: &RealCase) -> RealObs {
             };
             peer = std::thread::spawn(move || {
                 if let Ok((s, _)) = l.accept() {
+                    if at_accept {
+                        drop(s);
+                        return;
+                    }
                     serve_tcp_conn(s, transport, warm, then, reset, lg);
                 }
             });
@@ -329,13 +340,13 @@ pub fn run_case(case: &RealCase) -> RealObs {
                 Transport::Ldaps => {
                     url = format!("ldaps://localhost:{port}");
                 }
-                Transport::StartTls => {
+                Transport::StartTls | Transport::StartTlsPre => {
                     url = format!("ldap://localhost:{port}");
                     settings = settings.set_starttls(true);
                 }
                 _ => url = format!("ldap://127.0.0.1:{port}"),
             }
-            if matches!(transport, Transport::Ldaps | Transport::StartTls) {
+            if matches!(transport, Transport::Ldaps | Transport::StartTls | Transport::StartTlsPre) {
                 let ca = native_tls::Certificate::from_pem(&pki().ca_pem).expect("ca");
                 let conn = native_tls::TlsConnector::builder().add_root_certificate(ca).build().expect("connector");
                 settings = settings.set_connector(conn);
@@ -379,6 +390,10 @@ pub fn run_case(case: &RealCase) -> RealObs {
             settings = settings.set_std_stream(ldap3::StdStream::Unix(a));
             url = "ldapi://%2Fnonexistent%2Fpre-opened".to_string();
         }
+    }
+    if at_accept {
+        // let the hang-up arrive first (a pre-opened stream is then already at its end when the library gets it)
+        std::thread::sleep(Duration::from_millis(20));
     }
     // --- client --------------------------------------------------------------------------------
     let ending = case.ending;
@@ -444,7 +459,7 @@ pub fn run_case(case: &RealCase) -> RealObs {
                     };
                     o.peer_saw_end = "n/a".into();
                 }
-                Ending::PeerCloseIdle => {
+                Ending::PeerCloseIdle | Ending::PeerCloseAtAccept => {
                     // give the close time to arrive: the call after it must fail, not hang
                     std::thread::sleep(Duration::from_millis(20));
                     o.later = match c.simple_bind("cn=later", "pw") {
@@ -456,8 +471,19 @@ pub fn run_case(case: &RealCase) -> RealObs {
             }
             return o;
         }
-        let rt = tokio::runtime::Builder::new_current_thread().enable_all().build().expect("runtime");
+        let rt = tokio::runtime::Builder::new_current_thread().enable_all().rng_seed(tokio::runtime::RngSeed::from_bytes(&tokio_seed.to_le_bytes())).build().expect("runtime");
         rt.block_on(async move {
+            if ending == Ending::PeerCloseAtAccept {
+                // a busy runtime: the I/O driver gets its turn between the tasks, so the end of the stream is already
+                // known when the connection driver polls the socket for the first time
+                for _ in 0..200 {
+                    tokio::spawn(async {
+                        for _ in 0..50 {
+                            tokio::task::yield_now().await;
+                        }
+                    });
+                }
+            }
             let (conn, mut ldap) = match tokio::time::timeout(GUARD, ldap3::LdapConnAsync::with_settings(settings, &url)).await {
                 Ok(Ok(x)) => x,
                 Ok(Err(_)) => {
@@ -530,7 +556,7 @@ pub fn run_case(case: &RealCase) -> RealObs {
                     o.later = err_or(r, |r| format!("ok:{}", r.text));
                     o.peer_saw_end = "n/a".into();
                 }
-                Ending::PeerCloseIdle => {
+                Ending::PeerCloseIdle | Ending::PeerCloseAtAccept => {
                     drive_done = tokio::time::timeout(GUARD, &mut drive).await.is_ok();
                     let r = tokio::time::timeout(GUARD, ldap.simple_bind("cn=later", "pw")).await;
                     o.later = err_or(r, |r| format!("ok:{}", r.text));
